@@ -33,6 +33,20 @@ def handle : Handler := fun op args =>
     let par ← if par = "~" then some none else (parseInt? par).map some
     let res := possiblePublicPairsForSignature (← parseCurve? c) 0 (← parseInt? z) (← parseInt? r) (← parseInt? s) par
     some (showRes (fun l => if l.isEmpty then "~" else ";".intercalate (l.map showPt)) res)
+  -- Key.sign / Key.verify: the Key constructor's range / on-curve checks, then Generator.sign / verify; the DER
+  -- wrapper is encode-then-decode of (r, s) and `except (UnexpectedDER, ValueError): return False`
+  | "keysign", [c, d, z] => do
+    let c ← parseCurve? c
+    let d ← parseInt? d
+    if d < 1 ∨ d ≥ c.n then some "err InvalidSecretExponentError" else
+    some (showRes (fun (t : Int × Int) => s!"{t.1} {t.2}") (Pycoin.RFC6979.sign c 0 d (← parseInt? z)))
+  | "keyverify", [c, Q, z, r, s] => do
+    let c ← parseCurve? c
+    let Q ← parsePt? Q
+    if Q = none ∨ ¬ containsPoint c Q then some "err InvalidPublicPairError" else
+    match verify c 0 Q (← parseInt? z) (← parseInt? r) (← parseInt? s) with
+    | .ok b => some ("ok " ++ showBool b)
+    | .error e => if e.isValueError then some "ok 0" else some ("err " ++ e.tag)
   | "toy_sign", [c, d, zmax] => do
     let c ← parseCurve? c
     let d ← parseInt? d
